@@ -41,7 +41,8 @@ Prefixes == { <<>>, << <<"next", Z8>> >>, << <<"next", Z8>>, <<"next", Z8>> >>, 
               << <<"nth", W8(1)>> >>, << <<"nth", W8(2)>> >>, << <<"next", Z8>>, <<"nth", W8(1)>> >>,
               << <<"nth", W8(1)>>, <<"next", Z8>> >>, << <<"nth", W8(1)>>, <<"nth", W8(0)>> >>,
               << <<"size_hint", Z8>>, <<"nth", W8(1)>>, <<"size_hint", Z8>> >>,
-              << <<"nth", MaxW>>, <<"size_hint", Z8>> >> }             \* (calls after None must still return)
+              << <<"nth", MaxW>>, <<"size_hint", Z8>> >>, << <<"nth", W8(1)>>, <<"debug", Z8>> >>,
+              << <<"nth", MaxW>>, <<"debug", Z8>> >> }             \* (calls after None must still return)
 Finals == { <<"rest", Z8>>, <<"fold", Z8>>, <<"collect", Z8>>, <<"count", Z8>>, <<"last", Z8>>, <<"nth", MaxW>> }
           \cup { <<"skip", k>> : k \in {W8(0), W8(1), W8(2), MaxW} }
           \cup { <<"step_by", k>> : k \in {W8(1), W8(2), W8(3), MaxW} }
